@@ -430,7 +430,7 @@ def opts_case(res, enc, consts, content, sb, kw, V, K, calls):
                     alts = []
                     for v_ in T.VERSIONS:
                         for lv_ in T.levels_of(v_):
-                            if S.level_const(consts, lv_) != c['error']:
+                            if S.level_const(consts, lv_) != c['error'] or not all(T.mode_supported(m, v_) for m in modes):
                                 continue
                             if S.needed_bits(parts, v_, bits, eci, False) <= T.data_bits(v_, lv_):
                                 alts.append(vu == v_)
